@@ -8,7 +8,7 @@ MODULES = ["Mimium.Props.C11"]
 def new_stats():
     return {"evaluations": 0, "nontrivial": set(), "disagreements": 0, "impl_property_failures": 0, "samples": [],
             "handle_cases": 0, "handle_panic_cases": 0, "handle_order_exact": 0, "f17_hits": 0, "f17_not_reproduced": 0,
-            "f17_samples": [], "prog_cases": 0, "prog_boundary_cases": 0,
+            "f17_samples": [], "prog_cases": 0, "prog_upv_cases": 0, "prog_upv_f17_hits": 0, "prog_boundary_cases": 0,
             "prog_boundary_same_kind": 0, "prog_boundary_vm_late_by_one": 0, "prog_compile_errors": 0,
             "execs_hist": collections.Counter(), "maxpertick_hist": collections.Counter(), "ops_hist": collections.Counter(),
             "boundary_samples": []}
@@ -69,7 +69,17 @@ def compare_stream(ctx, name, mmh_args, stats, stdin_data=None):
                 continue
             mvm, mwasm, info = g[1], g[2], g[3]
             mmem = g[4] if len(g) > 4 else mwasm
+            # the two queue models with the literal BinaryHeap port inside (Vm.runH / W.runH stdHeap: what the
+            # `..._on_binary_heap` theorems are about) must predict what the oracle-heap models predict
+            if len(g) > 6 and (g[5] != mvm or g[6] != mwasm):
+                problems.append({"kind": "case", "level": "model-sanity", "stream": name, "table": table, "vm": f[6], "wasm": f[7],
+                                 "model_vm": mvm, "model_wasm_queue": mwasm, "model_vm_binary_heap": g[5],
+                                 "model_wasm_binary_heap": g[6], "size": len(table)})
+                continue
             stats["prog_cases"] += 1
+            # tables with `selK(t, v)` requests: closures with one upvalue, records of two cells on WASM
+            has_upv = ":u" in table
+            stats["prog_upv_cases"] += has_upv
             inf = dict(kv.split("=") for kv in info.split(";"))
             stats["execs_hist"][bucket(int(inf["execs"]))] += 1
             stats["maxpertick_hist"][bucket(int(inf["maxpertick"]))] += 1
@@ -117,6 +127,7 @@ def compare_stream(ctx, name, mmh_args, stats, stdin_data=None):
             if vm == ideal and wasm == mmem:
                 # exactly the deviation the closure-memory model predicts: class of finding F17
                 stats["f17_hits"] += 1
+                stats["prog_upv_f17_hits"] += has_upv
                 if len(stats["f17_samples"]) < 1:
                     stats["f17_samples"].append({"table": table})
                 problems.append(dict(rec, level="prog-f17", vm_eq_wasm=False))
@@ -129,7 +140,7 @@ def compare_stream(ctx, name, mmh_args, stats, stdin_data=None):
 def main(ctx, args):
     ctx.assumptions += [
         "model Model/Sched.lean is a hand port of mimium-scheduler/src/{scheduler,wasm_handle}.rs and of the on_sample-then-dsp order of VmDspRuntime/WasmDspRuntime::run_dsp; the tie is the correspondence run below",
-        "std::collections::BinaryHeap is taken to be a priority queue ordered by Task::cmp (`when` only; tie order = arbitrary oracle in the theorems), std::sync::mpsc to be FIFO",
+        "std::collections::BinaryHeap: its push/pop (sift_up, sift_down_to_bottom) are ported literally (Model/SchedMem.lean stdPush/stdPop) and the port is PROVED to be a priority queue ordered by Task::cmp (`when` only): C11_heap_* theorems, and the scheduler theorems are restated with the port inside (..._on_binary_heap); that the port is what std does is tied by the exact pop order of every handle-level history; std::sync::mpsc is taken to be FIFO",
         "`f64 as u64` is modelled by Lean's Float.toUInt64 (compared against the real code on fractional, negative, NaN, infinite and huge times)",
         "reading of the premise: a task is later than the current sample iff trunc(when) > now at the call; requests with trunc(when) <= now are rejected by a panic on both runtimes (VM one sample later than WASM) and are reported separately",
         "program-level effects are counter increments (commute), so outputs do not depend on the order among equal times",
@@ -241,7 +252,7 @@ def main(ctx, args):
     ctx.coverage.update({
         "evaluations": stats["evaluations"],
         "distinct_nontrivial": len(stats["nontrivial"]),
-        "rule": "handle level: random op histories (schedule f64 time/closure id, tick) against the real WasmSchedulerHandle, judged by the Lean model (same panics, same multiset per drain, pop order non-decreasing in time); program level: random task tables (1-4 counter tasks; requests from global scope, task bodies, dsp; absolute/relative, fractional, equal, far-future times; guarded chains) compiled from mimium source and run on VM and WASM for N samples, per-sample outputs vs both models; non-trivial = at least one task was executed (or a request was rejected); distinct = distinct history / table text",
+        "rule": "handle level: random op histories (schedule f64 time/closure id, tick) against the real WasmSchedulerHandle, judged by the Lean model (same panics, same multiset per drain, pop order non-decreasing in time); program level: random task tables (1-4 counter tasks; requests from global scope, task bodies, dsp; absolute/relative, fractional, equal, far-future times; guarded chains; 1 table in 3 also schedules closures capturing a float, `selK(t, v)`: records of two cells on WASM) compiled from mimium source and run on VM and WASM for N samples, per-sample outputs vs both models; non-trivial = at least one task was executed (or a request was rejected); distinct = distinct history / table text",
         "samples": stats["samples"][:6] or [{"note": "no sample in replay mode"}],
         "traces_validated_against_impl": stats["evaluations"],
         "model_impl_disagreements": stats["disagreements"],
@@ -253,6 +264,8 @@ def main(ctx, args):
             "program_executions_hist": dict(stats["execs_hist"]), "program_max_tasks_in_one_sample_hist": dict(stats["maxpertick_hist"]),
         },
         "std_binaryheap_port_pop_order_exact": stats["handle_order_exact"],
+        "closures_with_upvalue_records_of_two_cells": {"programs": stats["prog_upv_cases"],
+                                                        "of_which_wasm_deviates_as_the_record_layout_model_predicts": stats["prog_upv_f17_hits"]},
         "known_finding_F17": {"programs_where_wasm_deviates_exactly_as_the_closure_memory_model_predicts": stats["f17_hits"],
                               "sample": stats["f17_samples"][:1]},
         "boundary_cases_reported_separately": {
